@@ -1,4 +1,4 @@
-import PEval.Lemmas.Dataset
+import PEval.Lemmas.DatasetTlr
 /-!
 Totality of the loader model on well-formed tables: the referential-integrity predicate
 `WellFormed` (what "well-formed dataset" means for C16) and the proof that no lookup of the
@@ -8,8 +8,10 @@ namespace PEval.Dataset
 open PEval
 
 /-- Referential integrity of a table set: every token that the loader follows resolves, every
-sample has a lidar key frame (`LIDAR_TOP` or `LIDAR_CONCAT`), and every calibrated sensor's channel
-is a `FrameID` value (`sensors`). -/
+sample has a lidar key frame (`LIDAR_TOP` or `LIDAR_CONCAT`), every calibrated sensor's sensor resolves
+and its channel is a `FrameID` value (`sensors`), and no calibrated rotation is the zero quaternion
+(`rotations`; pose tables hold unit quaternions). Nothing is assumed about the SIGNS of the rotations:
+since the repair of finding C16-N1 two traffic-light cameras calibrated `q` and `-q` load. -/
 structure WellFormed (T : Tables) : Prop where
   samples_ne : T.samples ≠ []
   lidar : ∀ s ∈ T.samples, ∃ sd, lidarOf T s.token = .ok sd
@@ -22,7 +24,27 @@ structure WellFormed (T : Tables) : Prop where
   ann_visibility : T.visibility ≠ [] → ∀ a ∈ T.annotations, ∃ v, lookup Named.token T.visibility a.visibilityToken = .ok v
   ann_prev : ∀ a ∈ T.annotations, a.prev ≠ "" → ∃ b, lookup Annotation.token T.annotations a.prev = .ok b
   ann_next : ∀ a ∈ T.annotations, a.next ≠ "" → ∃ b, lookup Annotation.token T.annotations a.next = .ok b
-  sensors : ∃ frs, sensorFrames T = .ok frs
+  sensors : ∀ cs ∈ T.calibratedSensors, ∃ sen m, lookup Sensor.token T.sensors cs.sensorToken = .ok sen ∧
+    Enums.frameFromValue sen.channel = .ok m
+  rotations : ∀ cs ∈ T.calibratedSensors, cs.rotation ≠ Quat.zero
+
+/-- `_get_transforms` succeeds when every channel converts and no calibrated rotation is the zero
+quaternion — whatever the signs of the traffic-light cameras' quaternions -/
+theorem sensorFrames_total {T : Tables}
+    (hs : ∀ cs ∈ T.calibratedSensors, ∃ sen m, lookup Sensor.token T.sensors cs.sensorToken = .ok sen ∧
+      Enums.frameFromValue sen.channel = .ok m)
+    (hr : ∀ cs ∈ T.calibratedSensors, cs.rotation ≠ Quat.zero) : ∃ frs, sensorFrames T = .ok frs := by
+  obtain ⟨frs, hm⟩ := mapE_ok_of_forall (f := fun cs =>
+      match lookup Sensor.token T.sensors cs.sensorToken with
+      | .error e => .error e
+      | .ok s => Enums.frameFromValue s.channel) (l := T.calibratedSensors) (by
+    intro cs hcs
+    obtain ⟨sen, m, h1, h2⟩ := hs cs hcs
+    exact ⟨m, by simp [h1, h2]⟩)
+  refine ⟨frs, sensorFrames_of_channels hm ?_⟩
+  intro q hq
+  obtain ⟨cs, hcs, rfl⟩ := tlrRawRotations_mem (List.mem_of_mem_head? hq)
+  exact hr cs hcs
 
 theorem dataOf_mem {T : Tables} {tok ch : String} {sd : SampleData} (h : dataOf T tok ch = some sd) :
     sd ∈ T.sampleData := by
@@ -197,7 +219,7 @@ theorem sampleToFrame_total {T : Tables} (wf : WellFormed T) {cfg : Config}
   obtain ⟨c, hc⟩ := wf.calib sd hm
   obtain ⟨objs, ho⟩ := mapE_ok_of_forall (f := objectOf T cfg s.timestamp e c) (l := annsOf T s.token)
     (fun a ha => objectOf_total wf hfr hfp _ e c (annsOf_mem ha).1)
-  obtain ⟨frs, hfrs⟩ := wf.sensors
+  obtain ⟨frs, hfrs⟩ := sensorFrames_total wf.sensors wf.rotations
   simp [sampleToFrame, hsd, hfr, he, hc, hfrs, ho, bind, Except.bind, pure, Except.pure]
 
 theorem loadFrom_total {T : Tables} (wf : WellFormed T) {cfg : Config}
